@@ -17,6 +17,7 @@ import (
 	"verif/harness/internal/c13"
 	"verif/harness/internal/c14"
 	"verif/harness/internal/c15"
+	"verif/harness/internal/c16"
 	"verif/harness/internal/c17"
 	"verif/harness/internal/c19"
 )
@@ -43,6 +44,8 @@ func main() {
 		os.Exit(c15.Main(os.Args[2:]))
 	case "c19":
 		os.Exit(c19.Main(os.Args[2:]))
+	case "c16":
+		os.Exit(c16.Main(os.Args[2:]))
 	case "c17":
 		os.Exit(c17.Main(os.Args[2:]))
 	case "c02":
